@@ -60,3 +60,18 @@ func New(addr string, fs vfs.FS) (*dragonboat.NodeHost, error) {
 	}
 	return nh, nil
 }
+
+// NewAuto picks a free loopback port and starts a NodeHost on it, retrying when the port was taken
+// in the meantime by another process (parallel test suites on the same machine).
+func NewAuto(fs vfs.FS) (*dragonboat.NodeHost, string, error) {
+	var last error
+	for i := 0; i < 8; i++ {
+		addr := FreeAddr()
+		h, err := New(addr, fs)
+		if err == nil {
+			return h, addr, nil
+		}
+		last = err
+	}
+	return nil, "", last
+}
